@@ -279,7 +279,8 @@ class MarkdownRenderer(BaseRenderer):
     def render_quote(
         self, token: block_token.Quote, max_line_length: int
     ) -> Iterable[str]:
-        max_child_line_length = max_line_length - 2 if max_line_length else None
+        # (at least 1: a limit of 0 would mean "no word wrapping" for the quoted blocks.)
+        max_child_line_length = max(max_line_length - 2, 1) if max_line_length else None
         lines = self.blocks_to_lines(
             token.children, max_line_length=max_child_line_length
         )
@@ -323,7 +324,7 @@ class MarkdownRenderer(BaseRenderer):
             prepend = token.prepend
             indentation = token.indentation
         max_child_line_length = (
-            max_line_length - prepend if max_line_length else None
+            max(max_line_length - prepend, 1) if max_line_length else None
         )
         lines = self.blocks_to_lines(
             token.children, max_line_length=max_child_line_length
